@@ -14,6 +14,7 @@ type GenOpts struct {
 	OwnDataOnly      bool   // the schema addresses only the target record's own data
 	Probe            bool   // schemas call the harness custom function verif_probe (needs run.ProbeExtension)
 	NoBadRows        bool   // no malformed rows (old csv): every logical record yields exactly one result of its own
+	Pathological     bool   // declarations may use xpaths the xpath engine does not come to an end with by itself (C03 only: each evaluation costs a million steps)
 	NumericFilter    bool   // the FINAL_OUTPUT target filter compares a field with a number (own scenario family: known finding)
 }
 
